@@ -3,7 +3,8 @@ Proof: coq/C19 (status mapping over all snapshots, job-id injectivity, header-sa
 life cycle of a job).  Tie: (a) exhaustive product of snapshot field shapes through the extracted model vs
 the real Application.do_render_status, (b) random job histories on a real qs.jobs.workq behind QPlugin,
 (c) exhaustive pass over all code points for the Unicode facts the theorems assume.
-Search: the property's own oracle on the real responses given the live job objects."""
+Search: the property's own oracle on the real responses given the live job objects; it runs even when the translator
+or the proofs fail (monitor-only), and every hit is settled: re-run alone in a fresh process, delta-debugged."""
 import concurrent.futures
 import itertools
 import json
@@ -244,7 +245,8 @@ def live_of_snap(s):
 # ---------------------------------------------------------------------------------------------- histories
 
 def gen_history(rng, hid, writers):
-    colls = ["c0c0c0c0c0c0c0c0", "0123456789abcdef"]
+    # the first collection belongs to this history alone, the second is shared by all histories of the process
+    colls = ["%016x" % (0xC0C0000000000000 + hid), "0123456789abcdef"]
     ids = ["%s:makezip" % c for c in colls] + ["%s:render-%s" % (c, w) for c in colls for w in writers]
     n = rng.choice([6, 10, 16, 24, 32])
     ops = []
@@ -295,7 +297,8 @@ def gen_lifecycle_history(rng, hid, writers):
     killed / timed out / still running -> then the jobs leave the queue (watchdog: deadline stamped, dropped after the
     time-to-live; queue server restarted; dropjobs+waitjobs) or stay -> requested again.  The status of every
     (collection, writer) is polled after every single op, so every phase is observed repeatedly by the same process."""
-    colls = ["c0c0c0c0c0c0c0c0", "0123456789abcdef"]
+    # the first collection belongs to this history alone, the second is shared by all histories of the process
+    colls = ["%016x" % (0xC0C0000000000000 + hid), "0123456789abcdef"]
     c = colls[0]
     w = rng.choice(writers[:3])
     infos = [{"status": "fetching"}, {"status": "rendering", "progress": rng.randrange(100)}, {"article": "A\u00e4", "progress": 3},
@@ -377,10 +380,16 @@ def check(run):
     run.rule = ("(a) snapshots: full product of done{absent,False,True,1,0} x error{absent,None,'',str,0,[],dict} x info{absent,{},dict,None} x "
                 "result{absent,None,{},non-dict,partial dict,full dict with 11 suggested_filename shapes} x writer{5 known+1 unknown} with the "
                 "makezip snapshot cycling over 7 shapes, plus done x error x info x makezip in full, absent render job, decoy jobs of other "
-                "writers/collections, and random printable-Unicode filenames; (b) random op sequences (render, pull, setinfo, finish ok/err/"
-                "malformed, kill, clock tick + handletimeouts, dropdead, push, dropjobs, waitjobs) on a real workq, status queried for 2 "
-                "collections x all writers after every op; (c) all 0x110000 code points. distinct = distinct (snapshots, writer) resp. "
-                "(history, step, collection, writer); non-trivial = render job present, or makezip job present, i.e. not the empty queue")
+                "writers/collections, and random printable-Unicode filenames (20% of the characters drawn from the code points whose NFKD "
+                "yields non-alphanumeric ASCII, computed from unicodedata); every case is its own collection id; (b) op sequences on a real "
+                "workq: random ones (render, pull, setinfo, finish ok/err/malformed, kill, clock tick + handletimeouts, dropdead, push, dropjobs, "
+                "waitjobs, queue restart) and life-cycle ones (2-4 render rounds of one collection: fetch, render, finish ok/err/kill/timeout, "
+                "then expiry by the watchdog after the ttl / restart / drop, then re-render); status polled for 2 collections x all writers "
+                "after EVERY op by one long-lived process; (c) all 0x110000 code points for the Unicode facts, get_content_disposition on "
+                "every 97th (thorough: every) code point and on every code point whose NFKD contains ASCII in 5 contexts. distinct = distinct "
+                "(snapshots, writer) resp. (history, step, collection, writer) resp. (code point, context); non-trivial = render job present, "
+                "or makezip job present, i.e. not the empty queue. Oracle hits are re-run alone in a fresh process and delta-debugged "
+                "(ops, then filename characters) before they are reported")
     run.trusted = ["Coq 8.16.1 kernel (coqc); vm_compute only in the finite writer-table obligation and the Examples",
                    "extraction (ExtrOcamlBasic directives only) + ocaml/c19/driver.ml + vt/harness/c19_codec.py (token protocol)",
                    "hand-written model of do_render_status/_process_and_return_finished_state/get_content_disposition and of the job life cycle "
@@ -510,9 +519,9 @@ def _check(run, src, model, writers, writers_tbl):
     for h in chists:
         hists.append(dict(h, kind="corpus"))
     for _ in range(nh):
-        hists.append(dict(gen_history(run.rng, 0, writers), kind="random"))
+        hists.append(dict(gen_history(run.rng, len(hists), writers), kind="random"))
     for _ in range(nl):
-        hists.append(dict(gen_lifecycle_history(run.rng, 0, writers), kind="lifecycle"))
+        hists.append(dict(gen_lifecycle_history(run.rng, len(hists), writers), kind="lifecycle"))
     for i, h in enumerate(hists):
         h["id"] = i
     nshard = 1 if tier == "quick" else min(16, core.NPROC)
